@@ -67,6 +67,12 @@ def main(tier):
     sizes = "4,16,64" if tier == "quick" else "16,64,256,1024"
     tp = os.path.join(wd, "mem.ndjson")
     mbt("prod", "mem", tp, sizes, wd, timeout=14000)
+    # SURFACE: the same operations through the C entry points (what C clients call), callbacks that only count
+    tpc = os.path.join(wd, "cmem.ndjson")
+    # (from 16 MiB: below, the archive does not even fill one 4 MiB block per file and the reference peak is not reached)
+    mbt("prod", "capimem", tpc, "16,64" if tier == "quick" else "16,64,256", wd, timeout=14000)
+    with open(tp, "a") as f:
+        f.write(open(tpc).read())
     acc, tinfo, tr = validate_trace("TraceMem", "TraceMem.cfg", tp, "c15-trace", timeout=900)
     if not tinfo or tinfo.get("matched") != tinfo.get("len"):
         raise ToolError(f"TraceMem did not consume the trace: {tr.error_text[:600]}")
